@@ -222,7 +222,7 @@ def eval_model(ck, cases, shard=150):
     groups = []          # per file: (kind, [global indices])
     plain = [i for i, c in enumerate(cases) if not c.get("http") and not c.get("writer")]
     writer = [i for i, c in enumerate(cases) if c.get("writer") and not c["err"] and len(c["writer"]) > 0]
-    http = [i for i, c in enumerate(cases) if c.get("http") and c["http"]["status"] != -1]   # -1: no answer read (transport), counted below
+    http = [i for i, c in enumerate(cases) if c["class"] == "httpw" and c["http"]["status"] != -1]   # -1: no answer read (transport), counted below
     stream = [i for i, c in enumerate(cases) if c.get("stream")]
     for kind, idxs, typ, fn, conv, sh in (("p", plain, "icase", "codes", case_coq, shard), ("h", http, "hcase", "hcodes", hcase_coq, 12),
                                           ("s", stream, "scase", "scodes", scase_coq, 40), ("w", writer, "wcase", "wcodes", wcase_coq, 40)):
@@ -467,7 +467,13 @@ def main(ck):
                             "with the replayed capacities - the cutting strategy of the code is no longer the modelled one (first: case %d)"
                             % (len(inexact), nstream, cases[inexact[0]]["i"]))
         # vacuity guards: refusing is never a violation, but a run in which (almost) nothing is accepted checks nothing
-        hc = [c for c in cases if c.get("http")]
+        hc = [c for c in cases if c["class"] == "httpw"]
+        pc = [c for c in cases if c["class"] == "promwrite"]
+        ck.cov["prom_remote_write_requests"] = len(pc)
+        ck.cov["prom_remote_write_acknowledged"] = sum(1 for c in pc if not c["err"])
+        if pc and ck.cov["prom_remote_write_acknowledged"] * 2 < len(pc):
+            ck.broken.append("harness c06: the remote-write endpoint acknowledges only %d of %d valid requests - the passage check is vacuous"
+                             % (ck.cov["prom_remote_write_acknowledged"], len(pc)))
         hack = sum(1 for c in hc if not c["err"])
         ck.cov["http_requests"] = len(hc)
         noans = sum(1 for c in hc if c["http"]["status"] == -1 and c["http"]["kind"] != "chunked-abort")
